@@ -456,7 +456,18 @@ func (a *Action) lines() []string {
 	case "Q":
 		return []string{"rofile " + quoteArg(p) + " " + hex.EncodeToString([]byte(a.Data)) + "x"}
 	case "L":
-		return []string{"symlink " + quoteArg(p) + " -> " + linkTarget(a.Key)}
+		// a script name may hold a '#', which would start a comment: that part is quoted (variables are
+		// expanded outside the quotes only)
+		tg := linkTarget(a.Key)
+		if i := strings.Index(tg, "/script-"); i >= 0 && strings.Contains(tg, "#") {
+			rest := tg[i+len("/script-"):]
+			name, tail, _ := strings.Cut(rest, "/")
+			tg = tg[:i] + "/script-'" + name + "'"
+			if tail != "" {
+				tg += "/" + tail
+			}
+		}
+		return []string{"symlink " + quoteArg(p) + " -> " + tg}
 	case "R":
 		return []string{"rm " + quoteArg(p)}
 	case "M":
@@ -670,6 +681,17 @@ func genAction(r *common.RNG, st *genState, allowEnd bool, depth int) Action {
 				return Action{Op: "U"}
 			}
 			if st.killed || st.nBg == 0 {
+				continue
+			}
+			// kill signals the commands in turn and fails at the first one that has already been reaped:
+			// with a command that exits by itself in the list, whether that happens is a race
+			hasQuick := false
+			for _, b := range st.bgs {
+				if b.quick {
+					hasQuick = true
+				}
+			}
+			if hasQuick {
 				continue
 			}
 			st.killed = true
